@@ -628,6 +628,7 @@ def _c17_forms_chunk(arg):
         forms.append(('generator', 'gen'))
         forms.append(('lines', src.splitlines(True)))
         forms.append(('file', 'file'))
+        forms.append(('file-newline-kept', 'file'))
         for kind, val in forms:
             r.saw((src, kind, str(val)[:80]), nontrivial=len(src) > 1)
             r.count('form:' + kind)
@@ -635,6 +636,8 @@ def _c17_forms_chunk(arg):
                 val = (p for p in parts)
             elif kind == 'file':
                 val = io.StringIO(src)
+            elif kind == 'file-newline-kept':
+                val = io.StringIO(src, newline='')
             try:
                 s2 = impl.with_watchdog(5, impl.TexSoup, val)
                 obs = _obs(s2)
@@ -816,6 +819,13 @@ def oracle_C17(tier):
     docs = [s for s, _ in inputs.grammar_docs('C17', n, 3, maxchars=300)]
     docs += list(gen.strings_upto(gen.KIND_ALPHABET, 2))[: (400 if tier == 'quick' else 2000)]
     docs += list(gen.random_strings(rng, gen.KIND_ALPHABET, n, 3, 6))
+    # other line-end conventions: chunk boundaries after CR LF, after a lone
+    # CR, between CR and LF
+    crlf = [d.replace('\n', '\r\n') for d in docs[:n // 2] if '\n' in d]
+    crlf += [d.replace('\n', '\r') for d in docs[:n // 4] if '\n' in d]
+    crlf += [c for c in gen.odd_char_cases() if '\r' in c]
+    crlf += ['\\b\r\n{x}y', 'a\r\n\r\nb', '\\item x\r\n\\item y', '% c\r\n\\x', '\\x\r{y}', '\\x\n\r{y}']
+    docs += crlf
     for r in pmap(_c17_forms_chunk, [(c, str(i)) for i, c in enumerate(chunked(docs, NPROC * 2))]):
         res.merge(r)
     # documents whose parse builds nodes outside the token stream (bare-token
